@@ -79,7 +79,7 @@ def run(tier):
     prop = "C20"
     t0 = time.monotonic()
     base = core.base_seed()
-    wall = budget(tier, 90)
+    wall = budget(tier, 70)
     scratch = core.Scratch(NW)
     report = runner.Report(prop)
     agg = Agg()
